@@ -88,6 +88,12 @@ func TestClassifier(t *testing.T) {
 			writes: []dsWrite{{0, false, 340, 341}},
 			builds: []ev{rb(359, 378, 360, 377), rb(387, 418, 388, 391)},
 			want:   []string{"lin/not-linearizable/tq+bloom", "rt/present-without-put/tq+bloom"}},
+		{name: "B explained although the swap-window relaxation would also fit (observed on the tree with the hasCached fix): B is tried first", cfg: both,
+			all: []ev{wr(2, "Put", 336, 343), rd(2, "Get", 367, 368, true), wr(2, "Delete", 373, 413), rd(3, "GetSize", 384, 385, false),
+				wr(3, "Put", 386, 387), rd(3, "View", 408, 419, false)},
+			writes: []dsWrite{{0, false, 341, 342}, {0, true, 374, 375}},
+			builds: []ev{rb(376, 379, 377, 378), rb(380, 383, 381, 382), rb(409, 412, 410, 411)},
+			want:   []string{"bloom/negative-while-delete-in-flight"}},
 		{name: "linearizable history with overlaps", cfg: both,
 			all:  []ev{wr(0, "Put", 1, 10), rd(1, "Has", 2, 3, false), rd(1, "Has", 4, 5, true), wr(2, "Delete", 6, 20), rd(1, "Get", 11, 12, true), rd(1, "Get", 21, 22, false)},
 			want: nil},
